@@ -374,6 +374,9 @@ def execute(plan):
                     wrap_ = list if op["seed"] % 3 == 0 else as_obj_array
                     if wrap_ is list:
                         bump(res["probes"], "precoders_given_as_lists")
+                    elif op["seed"] % 3 == 1 and len(set(Nt)) == 1 and len(set(cur["Ns"])) == 1:
+                        wrap_ = np.array               # equal shapes: "a numpy array where each element is the precoder of one user" as ONE numeric 3-D array
+                        bump(res["probes"], "precoders_given_as_one_3d_array")
                     if op["how"] in ("F", "both"):
                         kw["F"] = wrap_(Fs)
                     if op["how"] in ("full_F", "both"):
